@@ -1187,7 +1187,23 @@ class Interp:
                 if self.provider == "pytz" and o.flavour == "pytz":
                     raise AbsRaise("AttributeError", name)      # pytz zones have .zone, not .key
                 return o.key_
-            # anything else (private tables of a tz library, utcoffset(), ...) is outside the model:
+            if name in ("utcoffset", "tzname", "dst"):
+                # with None as the instant: fixed-offset zones answer, zones with transitions say None
+                fixed = {"UTC": (0, "UTC"), "Etc/UTC": (0, "UTC"), "Etc/GMT+5": (-18000, "-05"),
+                         "Etc/GMT-5": (18000, "+05")}
+
+                def tzq(i, a, k, o=o, name=name):
+                    if not a or a[0] is not None:
+                        raise Unsupported(f"tzinfo.{name}(<instant>)")
+                    f_ = fixed.get("UTC" if o.kind == "utc" else o.key_)
+                    if f_ is None:
+                        return None
+                    if name == "tzname":
+                        return f_[1]
+                    return TD(secs=f_[0] if name == "utcoffset" else 0,
+                              term={"second": f_[0]} if (name == "utcoffset" and f_[0]) else {})
+                return Native(f"tz.{name}", tzq)
+            # anything else (private tables of a tz library, ...) is outside the model:
             # never answered with a made-up AttributeError
             raise Unsupported(f"attribute {name} of a tzinfo object")
         if o is None:
@@ -1971,6 +1987,13 @@ class Interp:
             if name in ("uses_pytz",):
                 return Native(name, lambda i, a, k: self.provider == "pytz")
             raise Unsupported(f"tzp.{name}")
+        if o.name == "component_factory":
+            # the factory as written: an instance built by interpreting ComponentFactory.__init__
+            cf = self.__dict__.get("_cf_instance")
+            if cf is None:
+                cf = self.instantiate(self.model.cls("cal.ComponentFactory"), [], {})
+                self.__dict__["_cf_instance"] = cf
+            return self.getattr(cf, name)
         if o.name == "types_factory":
             if name == "for_property":
                 def for_property(i, a, k):
